@@ -138,8 +138,19 @@ pub(super) fn deliver(k: &mut Kernel, pkt: &Packet, s: &TcpSegment) {
     // First try to demux to an established/in-progress connection by
     // 4-tuple. Listener fallback only runs if that misses.
     if let Some(fd) = k.sockets.find_connection(local, remote) {
-        handle_on_connection(k, fd, local, remote, s);
-        return;
+        // A connection that reached `Closed` (reset, timed out, or fully
+        // closed) only stays in the table until its owner drops the
+        // handle. It is off the wire: a fresh SYN reusing the pair
+        // belongs to the listener, not to the dead socket.
+        let dead = k
+            .lookup(fd)
+            .ok()
+            .and_then(|st| st.tcb.as_ref())
+            .is_some_and(|t| t.state == TcpState::Closed);
+        if !(dead && s.flags.syn && !s.flags.ack) {
+            handle_on_connection(k, fd, local, remote, s);
+            return;
+        }
     }
 
     // Listener fallback — SYN on an otherwise-unknown 4-tuple.
